@@ -561,8 +561,8 @@ SPECS["C01"] = {
 # ---------------------------------------------------------------------------------------------- C02
 def plan_c02(tier, seed):
     if tier == "quick":
-        return checks("main", 7, 12000) + checks("scalar_nohook", 1, 8000)
-    return checks("main", 10, 150000) + checks("scalar_nohook", 3, 100000) + checks("avx2", 3, 100000)
+        return checks("main", 6, 12000) + checks("scalar_nohook", 1, 8000) + checks("escape_off", 1, 8000)
+    return checks("main", 9, 150000) + checks("scalar_nohook", 3, 100000) + checks("avx2", 3, 100000) + checks("escape_off", 1, 100000)
 
 
 SPECS["C02"] = {
@@ -570,6 +570,7 @@ SPECS["C02"] = {
         "main": Build("main", "harness/c02_template.cpp"),
         "scalar_nohook": Build("scalar_nohook", "harness/c02_template.cpp", simd="none", hook=False),
         "avx2": Build("avx2", "harness/c02_template.cpp", simd="avx2"),
+        "escape_off": Build("escape_off", "harness/c02_template.cpp", defs=["QENTEM_AUTO_ESCAPE_HTML=0"]),
     },
     "default_build": "main",
     "plan": plan_c02,
